@@ -1,9 +1,12 @@
 /-
   Props/C16.lean — Nothing breaking the server's announced limits or static packet rules is sent.
   The validators (model of validate.rs / mqtt/*::validate_*) are compared with the standard's rules
-  (Spec/Validity.lean).  Direction proved: whatever the validators accept is valid.
+  (Spec/Validity.lean).  PUBLISH, CONNECT: whatever the validators accept is valid.  SUBSCRIBE, UNSUBSCRIBE: the submission
+  check is exactly the static rules and the send-time check exactly the announced limits (Proofs/Filter.lean ties the
+  code's one-pass filter scan to the grammar of 4.7 / 4.8.2 for every byte string); D7 and D70 are the two listed exceptions.
 -/
 import GV.Proofs.Validate
+import GV.Proofs.Filter
 namespace GV.Props.C16
 open GV
 
@@ -127,18 +130,152 @@ example :
      accepted (validateOutbound (.connect { will := some { topic := [97, 47, 98], responseTopic := some [114] } }))) = true := by
   decide
 
-/-- **A SUBSCRIBE accepted at submission has a non-empty subscription list, a Subscription Identifier in 1..268,435,455
-    (when it has one; 0 is a protocol error) and user properties that fit.**  (Topic-filter grammar is connection dependent -
-    wildcard / shared availability - and is checked by the send-time validator.) -/
-theorem subscribe_accepted_is_statically_valid_partial (p : Subscribe) :
-    validateOutbound (.subscribe p) = .ok () →
-      p.subscriptions ≠ [] ∧ (∀ i, p.subscriptionId = some i → 1 ≤ i ∧ i ≤ 268435455) ∧ Spec.upsOk p.userProps = true := by
-  unfold validateOutbound vSubscribeOutbound
+theorem all_congr_mem {α : Type} (l : List α) (f g : α → Bool) (h : ∀ x ∈ l, f x = g x) : l.all f = l.all g := by
+  induction l with
+  | nil => rfl
+  | cons a r ih =>
+    simp only [List.all_cons]
+    rw [h a (by simp), ih (fun x hx => h x (by simp [hx]))]
+
+/-- one subscription against the static rules: a well-formed filter (4.7, 4.8.2), no No Local on a shared subscription -/
+theorem subscription_static (x : Subscription) (hq : x.qos ≤ 2 ∧ x.retainHandling ≤ 2) :
+    isValidFilter x.topicFilter (some x.noLocal) =
+      (Spec.classify x.topicFilter != .invalid && decide (x.qos ≤ 2) && decide (x.retainHandling ≤ 2)
+        && !((Spec.classify x.topicFilter).isShared && x.noLocal)) := by
+  rw [isValidFilter_eq]
+  have h1 : decide (x.qos ≤ 2) = true := by simpa using hq.1
+  have h2 : decide (x.retainHandling ≤ 2) = true := by simpa using hq.2
+  rw [h1, h2]
+  cases Spec.classify x.topicFilter <;> cases x.noLocal <;> simp [Spec.FilterClass.isShared] <;> rfl
+
+/-- **The submission check of a SUBSCRIBE is exactly the static rules of the standard**: it passes if and only if the
+    packet has a non-empty list of well-formed topic filters (wildcards whole levels, '#' last, `$share/{name}/{filter}` with
+    a proper name and filter, at most 65535 bytes, no null character), no No Local on a shared subscription
+    [MQTT-3.8.3-4], a Subscription Identifier in 1..268,435,455 when it has one, and user properties that fit - nothing
+    that breaks a static rule gets past submission, and nothing that keeps them is refused there.  (Quality of service and
+    retain handling are enumerations in the code; the model's numbers are bounded by hypothesis.) -/
+theorem subscribe_submission_is_the_static_rules (p : Subscribe) (hp : p.packetId = 0)
+    (hq : ∀ x ∈ p.subscriptions, x.qos ≤ 2 ∧ x.retainHandling ≤ 2) :
+    validateOutbound (.subscribe p) = .ok () ↔ Spec.subscribeStaticOk p = true := by
+  unfold validateOutbound vSubscribeOutbound Spec.subscribeStaticOk
   simp only [bind_ok_iff, okIf_ok, vUserProps_ok]
-  intro ⟨_, h2, h3, _, h4⟩
-  refine ⟨?_, ?_, h4⟩
-  · intro h; rw [h] at h2; simp at h2
-  · intro i hi; rw [hi] at h3; simpa using h3
+  have hall : p.subscriptions.all (fun x => isValidFilter x.topicFilter (some x.noLocal)) =
+      p.subscriptions.all (fun s => Spec.classify s.topicFilter != .invalid && decide (s.qos ≤ 2) && decide (s.retainHandling ≤ 2)
+        && !((Spec.classify s.topicFilter).isShared && s.noLocal)) :=
+    all_congr_mem _ _ _ (fun x hx => subscription_static x (hq x hx))
+  rw [hall]
+  have hp' : decide (p.packetId = 0) = true := by simpa using hp
+  cases hsid : p.subscriptionId with
+  | none =>
+    simp only [Bool.and_eq_true, Bool.and_true]
+    constructor
+    · intro ⟨_, h2, _, h4, h5⟩
+      exact ⟨⟨h2, h5⟩, h4⟩
+    · intro ⟨⟨h2, h5⟩, h4⟩
+      exact ⟨hp', h2, trivial, h4, h5⟩
+  | some i =>
+    simp only [Bool.and_eq_true, decide_eq_true_eq]
+    constructor
+    · intro ⟨_, h2, h3, h4, h5⟩
+      exact ⟨⟨⟨h2, h5⟩, h4⟩, h3⟩
+    · intro ⟨⟨⟨h2, h5⟩, h4⟩, h3⟩
+      exact ⟨hp, h2, h3, h4, h5⟩
+
+/-- **The submission check of an UNSUBSCRIBE is exactly the static rules**: a non-empty list of well-formed topic filters and
+    user properties that fit. -/
+theorem unsubscribe_submission_is_the_static_rules (p : Unsubscribe) (hp : p.packetId = 0) :
+    validateOutbound (.unsubscribe p) = .ok () ↔ Spec.unsubscribeStaticOk p = true := by
+  unfold validateOutbound vUnsubscribeOutbound Spec.unsubscribeStaticOk
+  simp only [bind_ok_iff, okIf_ok, vUserProps_ok]
+  have hall : p.topicFilters.all (fun f => isValidFilter f none) = p.topicFilters.all (fun f => Spec.classify f != .invalid) := by
+    apply all_congr_mem
+    intro f _
+    rw [isValidFilter_eq]
+    cases Spec.classify f <;> rfl
+  rw [hall]
+  have hp' : decide (p.packetId = 0) = true := by simpa using hp
+  simp only [Bool.and_eq_true]
+  constructor
+  · intro ⟨_, h2, h3, h4⟩
+    exact ⟨⟨h2, h4⟩, h3⟩
+  · intro ⟨⟨h2, h4⟩, h3⟩
+    exact ⟨hp', h2, h3, h4⟩
+
+/-- **At send time a SUBSCRIBE passes exactly when every filter is within what the server announced**: a wildcard only if
+    Wildcard Subscription Available, a shared subscription only if Shared Subscription Available (and not with No Local) -
+    for a packet that fits the packet size and carries its identifier.  (The announced Subscription Identifier availability
+    is *not* among the checks: known finding D7, pinned by the crate's own tests.) -/
+theorem subscribe_send_time_is_the_announced_limits (p : Subscribe) (s : Settings) (hp : p.packetId ≠ 0)
+    (hsz : sizeCheck (subscribeLengths5 p) (some s) = .ok ()) :
+    vSubscribeInternal p (some s) = .ok () ↔
+      p.subscriptions.all (fun x => Spec.filterDynamicOk (limitsOf s) x.topicFilter x.noLocal) = true := by
+  unfold vSubscribeInternal vSubscribeInternalWith
+  simp only [bind_ok_iff, okIf_ok, hsz, true_and]
+  have hall : p.subscriptions.all (fun x => isValidFilterInternal x.topicFilter s (some x.noLocal)) =
+      p.subscriptions.all (fun x => Spec.filterDynamicOk (limitsOf s) x.topicFilter x.noLocal) := by
+    apply all_congr_mem
+    intro x _
+    rw [isValidFilterInternal_eq]
+    unfold Spec.filterDynamicOk limitsOf
+    cases Spec.classify x.topicFilter <;> cases x.noLocal <;> simp <;>
+      cases s.sharedSubsAvailable <;> cases s.wildcardSubsAvailable <;> simp
+  rw [hall]
+  simp [hp]
+
+/-- **Known finding D70, as a theorem about the code**: at send time an UNSUBSCRIBE is held to the limits the standard sets
+    for SUBSCRIBE - its filters must pass the wildcard / shared availability the server announced - although 3.2.2.3.11 and
+    3.2.2.3.13 restrict only the SUBSCRIBE packet.  "Never rejected when valid" therefore holds for UNSUBSCRIBE only as
+    `_partial`: for filters without wildcard and share prefix, or servers that announce both available. -/
+theorem unsubscribe_send_time_applies_subscribe_limits (p : Unsubscribe) (s : Settings) (hp : p.packetId ≠ 0)
+    (hsz : sizeCheck (unsubscribeLengths5 p) (some s) = .ok ()) :
+    vUnsubscribeInternal p (some s) = .ok () ↔
+      p.topicFilters.all (fun f => Spec.filterDynamicOk (limitsOf s) f false) = true := by
+  unfold vUnsubscribeInternal vUnsubscribeInternalWith
+  simp only [bind_ok_iff, okIf_ok, hsz, true_and]
+  have hall : p.topicFilters.all (fun f => isValidFilterInternal f s none) =
+      p.topicFilters.all (fun f => Spec.filterDynamicOk (limitsOf s) f false) := by
+    apply all_congr_mem
+    intro f _
+    rw [isValidFilterInternal_eq]
+    unfold Spec.filterDynamicOk limitsOf
+    cases Spec.classify f <;> simp <;>
+      cases s.sharedSubsAvailable <;> cases s.wildcardSubsAvailable <;> simp
+  rw [hall]
+  simp [hp]
+
+theorem unsubscribe_never_rejected_when_valid_partial (p : Unsubscribe) (s : Settings) (hp : p.packetId ≠ 0)
+    (hsz : sizeCheck (unsubscribeLengths5 p) (some s) = .ok ())
+    (hav : s.wildcardSubsAvailable = true ∧ s.sharedSubsAvailable = true)
+    (hv : Spec.unsubscribeDynamicOk (limitsOf s) p = true) :
+    vUnsubscribeInternal p (some s) = .ok () := by
+  rw [unsubscribe_send_time_applies_subscribe_limits p s hp hsz]
+  unfold Spec.unsubscribeDynamicOk at hv
+  rw [← hv]
+  apply all_congr_mem
+  intro f _
+  unfold Spec.filterDynamicOk limitsOf
+  cases Spec.classify f <;> simp [hav.1, hav.2] <;> rfl
+
+/-- the witness of D70: a valid UNSUBSCRIBE (the standard limits nothing here) that the send-time check refuses -/
+example :
+    (Spec.unsubscribeStaticOk { topicFilters := [[97, 47, 43]] } &&
+     Spec.unsubscribeDynamicOk { wildcardAvailable := false } { topicFilters := [[97, 47, 43]] } &&
+     !accepted (vUnsubscribeInternal { packetId := 7, topicFilters := [[97, 47, 43]] } (some { wildcardSubsAvailable := false }))) = true := by
+  decide
+
+/-- non-vacuity of the submission theorems: filters on both sides of every clause -/
+example :
+    (accepted (validateOutbound (.subscribe { subscriptions := [{ topicFilter := [97, 47, 35] }] })) &&
+     !accepted (validateOutbound (.subscribe { subscriptions := [{ topicFilter := [97, 47, 35, 47, 98] }] })) &&
+     !accepted (validateOutbound (.subscribe { subscriptions := [{ topicFilter := [97, 43] }] })) &&
+     !accepted (validateOutbound (.subscribe { subscriptions := [{ topicFilter := [] }] })) &&
+     accepted (validateOutbound (.subscribe { subscriptions := [{ topicFilter := [36, 115, 104, 97, 114, 101, 47, 103, 47, 97] }] })) &&
+     !accepted (validateOutbound (.subscribe { subscriptions := [{ topicFilter := [36, 115, 104, 97, 114, 101, 47, 103, 47, 97], noLocal := true }] })) &&
+     !accepted (validateOutbound (.subscribe { subscriptions := [{ topicFilter := [36, 115, 104, 97, 114, 101, 47, 47, 97] }] })) &&
+     !accepted (validateOutbound (.subscribe { subscriptions := [{ topicFilter := [36, 115, 104, 97, 114, 101, 47, 103] }] })) &&
+     !accepted (validateOutbound (.unsubscribe { topicFilters := [[97, 0]] })) &&
+     accepted (validateOutbound (.unsubscribe { topicFilters := [[43, 47, 43]] }))) = true := by
+  decide
 
 example :
     (!accepted (validateOutbound (.subscribe { subscriptions := [{ topicFilter := [97] }], subscriptionId := some 0 })) &&
